@@ -69,10 +69,10 @@ def handleKernel (fs : List (String × String)) : String :=
                   return some s!"lane model of the SSE4.1 U8x4 kernels: pixel ({x},{y}) channel {ch}: model={px.getD ch 0} got={got[(y * dw + x) * 4 + ch]!}"
           return none
         else none
-      -- 8-bit components on SSE4.1, vertical pass: every destination row is cut into chunks of 32, 8 and (once) 4
+      -- 8-bit components on SSE4.1 / AVX2 (256-bit instructions = two independent 128-bit halves), vertical pass: every destination row is cut into chunks of 32, 8 and (once) 4
       -- components computed by the lane-accurate model, the rest by the portable formula
       let laneV : Option String :=
-        if p.kind == .u8 ∧ ext == "sse4" ∧ pass == "v" ∧ got.size == dw * dh * p.n then Id.run do
+        if p.kind == .u8 ∧ (ext == "sse4" ∨ ext == "avx2") ∧ pass == "v" ∧ got.size == dw * dh * p.n then Id.run do
           let q := normalize16 c
           let n := p.n
           let rowLen := dw * n
@@ -100,7 +100,7 @@ def handleKernel (fs : List (String × String)) : String :=
               outRow := outRow ++ [clip8 (2 ^ (q.precision - 1) + SimdVertU8.dotV rows ksl (xs + j)) q.precision]
             for i in [0:rowLen] do
               if outRow.getD i 0 ≠ got[y * rowLen + i]! then
-                return some s!"lane model of the SSE4.1 vertical u8 kernel: row {y} component {i}: model={outRow.getD i 0} got={got[y * rowLen + i]!}"
+                return some s!"lane model of the {ext} vertical u8 kernel: row {y} component {i}: model={outRow.getD i 0} got={got[y * rowLen + i]!}"
           return none
         else none
       let lane := match lane with | some a => some a | none => laneV
